@@ -40,6 +40,14 @@ fn match_types(type1: ValueKind, type2: ValueKind) -> (bool, bool)
   }
 }
 
+// Can `elem` join `set`?  The empty set `{}` has no element kind yet and takes the kind of its first element.
+fn insert_types_match(set: &MechSet, elem: &Value) -> (bool, bool) {
+  if set.kind == ValueKind::Empty {
+    return (true, true);
+  }
+  match_types(set.kind.clone(), elem.kind().clone())
+}
+
 impl MechFunctionImpl for SetInsertFxn {
   fn solve(&self) {
     unsafe {
@@ -53,7 +61,7 @@ impl MechFunctionImpl for SetInsertFxn {
       // Clear the output set first (optional, depending on semantics)
       out_ptr.set.clear();
 
-      let (types_match, sizes_match) = match_types(set_ptr.kind.clone(), elem_ptr.kind().clone());
+      let (types_match, sizes_match) = insert_types_match(set_ptr, elem_ptr);
       // Insert arg2 into arg1
       if(types_match)
       {
@@ -72,7 +80,7 @@ impl MechFunctionImpl for SetInsertFxn {
       out_ptr.num_elements = out_ptr.set.len();
       if(types_match && sizes_match)
       {
-        out_ptr.kind = set_ptr.kind.clone();
+        out_ptr.kind = if set_ptr.kind == ValueKind::Empty { elem_ptr.kind() } else { set_ptr.kind.clone() };
       }
     }
   }
@@ -96,6 +104,13 @@ register_descriptor! {
 fn set_insert_fxn(arg1: Value, arg2: Value) -> MResult<Box<dyn MechFunction>> {
   match (arg1, arg2) {
     (Value::Set(arg1), arg2) => {
+      // an element of another kind cannot join the set: say so instead of producing the empty set
+      if !insert_types_match(&arg1.borrow(), &arg2).0 {
+        return Err(MechError::new(
+          UnhandledFunctionArgumentKind2 { arg: (Value::Set(arg1.clone()).kind(), arg2.kind()), fxn_name: "set/insert".to_string() },
+          None
+        ).with_compiler_loc());
+      }
       Ok(Box::new(SetInsertFxn { arg1: arg1.clone(), arg2: Ref::new(arg2.clone()), out: Ref::new(MechSet::new(arg1.borrow().kind.clone(), arg1.borrow().num_elements + 1)) }))
     },
     x => Err(MechError::new(
